@@ -125,6 +125,8 @@ def h_fragments(k: int, nf: int, ns: int, **sym):
             bound_int(si, 0, ns)
             pieces.append(progs.pick(si, SEPS[:ns]))
     text = ''.join(pieces)
+    from vflib.engine import case
+    case(text)
     lines, t_str, a = _compare(text)
     _compare_native_containers(text, lines, t_str, a)
 
